@@ -75,3 +75,54 @@ def truth_table(expr, atoms, funcs=None):
         env = dict(zip(atoms, vals))
         out[vals] = evaluate(expr, env, funcs)
     return out
+
+
+class NotExpressible(ValueError):
+    pass
+
+
+def function_as_expression(fn):
+    """the return value of a small straight-line / if-else function as ONE expression over its arguments:
+    locals are substituted, `if c: A else: B` becomes a conditional expression.  Raises NotExpressible for
+    loops, try, augmented subscripts etc."""
+
+    def subst(e, env):
+        class S(ast.NodeTransformer):
+            def visit_Name(self, n):
+                if isinstance(n.ctx, ast.Load) and n.id in env:
+                    return ast.parse(ast.unparse(env[n.id]), mode="eval").body
+                return n
+
+        return S().visit(ast.parse(ast.unparse(e), mode="eval").body)
+
+    def block(stmts, env, budget=[64]):
+        for i, s in enumerate(stmts):
+            if isinstance(s, ast.Expr) and isinstance(s.value, ast.Constant):
+                continue
+            if isinstance(s, ast.Pass):
+                continue
+            if isinstance(s, ast.Assign) and len(s.targets) == 1 and isinstance(s.targets[0], ast.Name):
+                env = {**env, s.targets[0].id: subst(s.value, env)}
+                continue
+            if isinstance(s, ast.AnnAssign) and isinstance(s.target, ast.Name) and s.value is not None:
+                env = {**env, s.target.id: subst(s.value, env)}
+                continue
+            if isinstance(s, ast.AugAssign) and isinstance(s.target, ast.Name):
+                cur = env.get(s.target.id, ast.Name(id=s.target.id, ctx=ast.Load()))
+                env = {**env, s.target.id: ast.BinOp(left=cur, op=s.op, right=subst(s.value, env))}
+                continue
+            if isinstance(s, ast.Return):
+                if s.value is None:
+                    raise NotExpressible("bare return")
+                return subst(s.value, env)
+            if isinstance(s, ast.If):
+                budget[0] -= 1
+                if budget[0] < 0:
+                    raise NotExpressible("too many branches")
+                rest = stmts[i + 1:]
+                return ast.IfExp(test=subst(s.test, env), body=block([*s.body, *rest], env), orelse=block([*s.orelse, *rest], env))
+            raise NotExpressible(f"statement {type(s).__name__}")
+        raise NotExpressible("falls off the end")
+
+    e = block(fn.body, {}, [64])
+    return ast.fix_missing_locations(ast.parse(ast.unparse(e), mode="eval").body)
